@@ -311,6 +311,25 @@ func c07Fallback(c *Ctx, sx *symx.Ctx, pf *ssa.Function) {
 	fk := "database.(*Database).performFuzzySearch"
 	// the matcher call
 	finds := callsTo(pf, fuzzyFind)
+	entry := pf
+	var stack []*ssa.Call // the calls from the fallback entry down to the function that runs the matcher
+	if len(finds) == 0 {
+		// the fallback may delegate to a step that runs the matcher
+		for _, g := range withSteps(c, pf, 2) {
+			if fs := callsTo(g, fuzzyFind); len(fs) == 1 && g != pf {
+				if _, st := reachCall(c, entry, fuzzyFind, nil, 2); st != nil {
+					stack = st
+				}
+				pf, f, finds = g, sx.Of(g), fs
+				fk = load.FuncKey(g)
+			}
+		}
+	}
+	ev := &ctxEval{c: c}
+	// the value is parameter `name` of the fallback entry (query, options.<field>)
+	isEntryParam := func(v ssa.Value, want string) bool {
+		return entry != pf && ev.Describe(v, stack) == want
+	}
 	if len(finds) != 1 {
 		r.Bad("O-3", fk+"#find-call", c.P.Pos(pf.Pos()), fmt.Sprintf("%d calls of fuzzy.Find (want 1)", len(finds)))
 		return
@@ -325,7 +344,7 @@ func c07Fallback(c *Ctx, sx *symx.Ctx, pf *ssa.Function) {
 	if home == nil {
 		home = pf
 	}
-	if via != nil {
+	if via != nil && entry == pf {
 		// the helper works on the same database
 		if len(via.Common().Args) == 0 || ssau.ParamOf(via.Common().Args[0]) != pf.Params[0] && via.Common().Args[0] != ssa.Value(pf.Params[0]) {
 			isMk = false
@@ -334,7 +353,7 @@ func c07Fallback(c *Ctx, sx *symx.Ctx, pf *ssa.Function) {
 	lenOK := false
 	if isMk {
 		if lc, ok := mk.Len.(*ssa.Call); ok && ssau.CallName(lc) == "builtin.len" {
-			if _, ok := ssau.IsFieldLoad(lc.Common().Args[0], dbType, "Commands"); ok {
+			if isCommandsList(lc.Common().Args[0]) {
 				lenOK = true
 			}
 		}
@@ -347,13 +366,17 @@ func c07Fallback(c *Ctx, sx *symx.Ctx, pf *ssa.Function) {
 		steps, root := stringChain(pat)
 		patOK = root == ssa.Value(pf.Params[1]) && len(steps) <= 2
 	}
+	if !patOK && entry != pf {
+		// the query kept in the search object the step belongs to
+		patOK = isEntryParam(pat, "param:"+entry.Params[1].Name())
+	}
 	r.Check(patOK, "O-3", fk+"#pattern-is-query", c.P.Pos(find.Pos()), "the matcher's pattern is the query", "the pattern given to the matcher is not the query")
 	// stores into data[i]
 	var loopOverCmds *ssau.RangeLoop
 	for _, l := range ssau.RangeLoops(home) {
 		l := l
 		if l.Over != nil && !l.IsMap {
-			if _, ok := ssau.IsFieldLoad(l.Over, dbType, "Commands"); ok {
+			if isCommandsList(l.Over) {
 				loopOverCmds = &l
 			}
 		}
@@ -451,7 +474,7 @@ func c07Fallback(c *Ctx, sx *symx.Ctx, pf *ssa.Function) {
 							continue
 						}
 						if ia, ok := st.Val.(*ssa.IndexAddr); ok && isMatchField(ia.Index, "Index") {
-							if _, ok := ssau.IsFieldLoad(ia.X, dbType, "Commands"); ok {
+							if isCommandsList(ia.X) {
 								cmdOK = true
 							}
 						}
@@ -465,6 +488,16 @@ func c07Fallback(c *Ctx, sx *symx.Ctx, pf *ssa.Function) {
 		cut := map[[2]int]bool{}
 		// which side of a condition establishes Score >= T or T == 0
 		classify := func(cond ssa.Value) (onTrue, onFalse bool) {
+			// a predicate of the search object given this match's score:
+			// true only where Score >= T or T == 0
+			if hc, isCall := cond.(*ssa.Call); isCall {
+				for ai, a := range hc.Common().Args {
+					if isMatchField(a, "Score") && c07AcceptsPredicate(c, ev, hc, ai, append(append([]*ssa.Call(nil), stack...), hc), entry) {
+						return true, false
+					}
+				}
+				return
+			}
 			op, x, y, ok := ssau.CondOf(cond)
 			if !ok {
 				return
@@ -549,6 +582,15 @@ func c07Fallback(c *Ctx, sx *symx.Ctx, pf *ssa.Function) {
 						if x == loopM.Index && strings.Contains(f.Plain(y), ".Limit") && (op == token.GEQ || op == token.GTR) && k == 0 {
 							allowed = true
 						}
+					}
+				}
+				if ok && !allowed {
+					cnd := iff.Cond
+					if u, isNot := cnd.(*ssa.UnOp); isNot && u.Op == token.NOT {
+						cnd = u.X
+					}
+					if t, _ := classify(cnd); t {
+						allowed = true // the accepting predicate of the search object
 					}
 				}
 				if ok && !allowed {
@@ -687,6 +729,111 @@ func optValue(v ssa.Value, field string, d int) bool {
 		}
 		n++
 		if !optValue(args[idx], field, d+1) {
+			return false
+		}
+	}
+	return n > 0
+}
+
+// c07AcceptsPredicate: the function called answers true only where its score
+// parameter (#si) is >= the fuzzy threshold of the search in force, or that
+// threshold is 0. The threshold is options.FuzzyThreshold of the fallback
+// entry, read directly or through the search object (evaluated under stack).
+func c07AcceptsPredicate(c *Ctx, ev *ctxEval, call *ssa.Call, si int, stack []*ssa.Call, entry *ssa.Function) bool {
+	h := call.Common().StaticCallee()
+	if h == nil || h.Blocks == nil || !c.P.IsRepoFunc(h) || si >= len(h.Params) || h.Signature.Results().Len() != 1 {
+		return false
+	}
+	score := h.Params[si]
+	want := ""
+	for _, p := range entry.Params {
+		if ssau.NamedOf(p.Type()) == optType {
+			want = "param:" + p.Name() + ".FuzzyThreshold"
+		}
+	}
+	isScore := func(v ssa.Value) bool { return v == ssa.Value(score) || ssau.ParamOf(v) == score }
+	isThr := func(v ssa.Value) bool {
+		return optLoad(v, "FuzzyThreshold") || (want != "" && ev.Describe(v, stack) == want)
+	}
+	classify := func(cond ssa.Value) (onTrue, onFalse bool) {
+		op, x, y, ok := ssau.CondOf(cond)
+		if !ok {
+			return
+		}
+		if isScore(y) && isThr(x) {
+			x, y, op = y, x, ssau.Flip(op)
+		}
+		if isScore(x) && isThr(y) {
+			switch op {
+			case token.LSS:
+				onFalse = true
+			case token.GEQ:
+				onTrue = true
+			}
+			return
+		}
+		if isThr(y) {
+			x, y, op = y, x, ssau.Flip(op)
+		}
+		if isThr(x) {
+			if k, isC := ssau.ConstInt(y); isC && k == 0 {
+				switch op {
+				case token.EQL:
+					onTrue = true
+				case token.NEQ:
+					onFalse = true
+				}
+			}
+		}
+		return
+	}
+	cut := map[[2]int]bool{}
+	for _, iff := range ssau.Ifs(h) {
+		t, f0 := classify(iff.Cond)
+		if t {
+			cut[[2]int{iff.Block().Index, 0}] = true
+		}
+		if f0 {
+			cut[[2]int{iff.Block().Index, 1}] = true
+		}
+	}
+	boolPhiCuts(h, cut, classify)
+	reach := reachableFromEntry(h, cut)
+	var trueOnlyQualified func(v ssa.Value, at, pred *ssa.BasicBlock, d int) bool
+	trueOnlyQualified = func(v ssa.Value, at, pred *ssa.BasicBlock, d int) bool {
+		if d > 4 {
+			return false
+		}
+		if ssau.IsConstBool(v, false) {
+			return true
+		}
+		if ssau.IsConstBool(v, true) {
+			// reached only over qualifying edges
+			if pred != nil {
+				for si2, sc := range pred.Succs {
+					if sc == at && cut[[2]int{pred.Index, si2}] {
+						return true
+					}
+				}
+				return !reach[pred]
+			}
+			return !reach[at]
+		}
+		if phi, ok := v.(*ssa.Phi); ok {
+			for i, e := range phi.Edges {
+				if !trueOnlyQualified(e, phi.Block(), phi.Block().Preds[i], d+1) {
+					return false
+				}
+			}
+			return len(phi.Edges) > 0
+		}
+		t, _ := classify(v)
+		return t
+	}
+	n := 0
+	for _, ret := range ssau.ReturnsOf(h) {
+		n++
+		if !trueOnlyQualified(ssau.ResultValue(ret, 0), ret.Block(), nil, 0) {
 			return false
 		}
 	}
